@@ -217,6 +217,51 @@ theorem PIPE_relabel_invariant (sel : Nat → Option Rat) (reg : List String) (S
       (fun k => (R.2 c c' hc hc' k).symm)
   · exact (iso.atoms_perm'.map (·.Z)).symm
 
+/-! #### non-vacuity: the C–H fragment of `Props/C03.lean` and the same fragment with its two atoms swapped -/
+namespace ExRelabel
+open PGA.C03
+
+theorem iso : MolIso swap01 chMol hcMol := by
+  refine ⟨fun x y h => by rw [← swap01_invol x, ← swap01_invol y, h], fun y => ⟨swap01 y, swap01_invol y⟩, ?_, rfl, ?_,
+    List.Perm.refl _, rfl⟩
+  · intro i
+    unfold swap01
+    show (if i = 0 then 1 else if i = 1 then 0 else i) < 2 ↔ i < 2
+    by_cases h0 : i = 0
+    · subst h0; simp
+    · by_cases h1 : i = 1
+      · subst h1; simp
+      · simp [h0, h1]
+  · intro i
+    unfold swap01
+    by_cases h0 : i = 0
+    · subst h0; rfl
+    · by_cases h1 : i = 1
+      · subst h1; rfl
+      · have : 2 ≤ i := by omega
+        simp only [h0, h1, if_false]
+        rw [List.getElem?_eq_none_iff.2 (by simpa [hcMol] using this), List.getElem?_eq_none_iff.2 (by simpa [chMol] using this)]
+
+example : chMol.wf = true ∧ PGA.C04.exScheme.wf = true ∧ PGA.C04.exScheme.noStar = true ∧
+    maxRaw PGA.C04.exScheme (aromatizeBenson chMol) < maxMatches ∧ maxRaw PGA.C04.exScheme (aromatizeBenson hcMol) < maxMatches := by
+  decide
+
+def cC : Corr := ⟨fun _ => .ok 2, fun T => .ok (T / 100), fun _ => .ok 3, some (100, 1000)⟩
+def cH : Corr := ⟨fun _ => .ok 1, fun _ => .ok (-1), fun _ => .ok (1/2), some (200, 1500)⟩
+def cD : Corr := ⟨fun _ => .ok 0, fun _ => .ok (1/4), fun _ => .error .incomplete, none⟩
+def lib : Lib := ⟨[("C(H)", [("thermochem", cC)]), ("H(C)", [("thermochem", cH)]), ("CH", [("thermochem", cD)])], none, none⟩
+def hAt (r : Except Err Estimator) (T : Rat) : Option Rat :=
+  match r with | .ok e => (match e.HoRT T with | .ok v => some v | .error _ => none) | .error _ => none
+def order (S : SchemeDef) (m : Mol) : Option (List String) :=
+  match decompose S m with | .ok c => some (c.map (·.1)) | .error _ => none
+
+/-- the two numberings list the descriptors in different orders (the hydrogen's group first when the hydrogen is atom 0) and give
+the same `H/RT(300) = 9/4` -/
+example : order PGA.C04.exScheme chMol = some ["C(H)", "H(C)", "CH"] ∧ order PGA.C04.exScheme hcMol = some ["H(C)", "C(H)", "CH"] ∧
+    hAt (pipeline ["thermochem"] PGA.C04.exScheme lib chMol "thermochem") 300 = some (9/4) ∧
+    hAt (pipeline ["thermochem"] PGA.C04.exScheme lib hcMol "thermochem") 300 = some (9/4) := by decide +kernel
+end ExRelabel
+
 /-! ### C04 ∘ C01 — a mixture `A ⊔ B` -/
 
 /-- the hypotheses of `C04_decompose_union`, quoted: both graphs well-formed; the scheme's queries well-formed and
@@ -752,5 +797,107 @@ theorem PIPE_spelling_raw_string_full_fails : ¬ PIPE_spelling_raw_string_full :
   cases hne
 
 end
+
+/-! ### ∘ C07 — the dimensional getters -/
+
+/-- **Same non-dimensional values ⇒ same `G/RT`, `H`, `G`, `S`, `Cp` in every unit** (each getter returns a value for one
+object exactly when it does for the other, and the same value; `KeyError` for an unknown unit string on both sides). -/
+theorem PIPE_dimensional_same (R : RTable) (o o' : ND) (h : NDSame o o') (T : Rat) (u : UnitStr) (flag : PyFlag) :
+    SameVal (o.GoRT T flag) (o'.GoRT T flag) ∧ SameVal (o.H R T u) (o'.H R T u) ∧
+    SameVal (o.G R T u flag) (o'.G R T u flag) ∧ SameVal (o.Sdim R T u flag) (o'.Sdim R T u flag) ∧
+    SameVal (o.Cp R T u) (o'.Cp R T u) := by
+  refine ⟨fun v => ?_, fun v => ?_, fun v => ?_, fun v => ?_, fun v => ?_⟩
+  · simp only [GoRT_ok_iff, h.hort T _, h.sor T flag _]
+  · simp only [C07_H, h.hort T _]
+  · simp only [C07_G, h.hort T _, h.sor T flag _]
+  · simp only [C07_S, h.sor T flag _]
+  · simp only [C07_Cp, h.cp T _]
+
+/-- **Additive non-dimensional values ⇒ additive `G/RT`, `H`, `G`, `S`, `Cp` in every unit**: `H(T,u) = (H/RT)·T·R(u/K)` etc. are
+linear in the non-dimensional value (C07), so `X_U = X_A + X_B` lifts: the mixture's getter returns a value exactly when both
+components' do, and then their sum. -/
+theorem PIPE_dimensional_sum (R : RTable) (oU oA oB : ND) (h : NDSum oU oA oB) (T : Rat) (u : UnitStr) (flag : PyFlag) :
+    SumVal (oU.GoRT T flag) (oA.GoRT T flag) (oB.GoRT T flag) ∧ SumVal (oU.H R T u) (oA.H R T u) (oB.H R T u) ∧
+    SumVal (oU.G R T u flag) (oA.G R T u flag) (oB.G R T u flag) ∧
+    SumVal (oU.Sdim R T u flag) (oA.Sdim R T u flag) (oB.Sdim R T u flag) ∧
+    SumVal (oU.Cp R T u) (oA.Cp R T u) (oB.Cp R T u) := by
+  refine ⟨fun v => ?_, fun v => ?_, fun v => ?_, fun v => ?_, fun v => ?_⟩
+  · simp only [GoRT_ok_iff, h.hort T _, h.sor T flag _]
+    constructor
+    · rintro ⟨_, _, ⟨ha, hb, h1, h2, rfl⟩, ⟨sa, sb, s1, s2, rfl⟩, rfl⟩
+      exact ⟨ha - sa, hb - sb, ⟨ha, sa, h1, s1, rfl⟩, ⟨hb, sb, h2, s2, rfl⟩, by ring⟩
+    · rintro ⟨_, _, ⟨ha, sa, h1, s1, rfl⟩, ⟨hb, sb, h2, s2, rfl⟩, rfl⟩
+      exact ⟨ha + hb, sa + sb, ⟨ha, hb, h1, h2, rfl⟩, ⟨sa, sb, s1, s2, rfl⟩, by ring⟩
+  · simp only [C07_H, h.hort T _]
+    constructor
+    · rintro ⟨_, r, ⟨ha, hb, h1, h2, rfl⟩, hr, rfl⟩
+      exact ⟨ha * T * r, hb * T * r, ⟨ha, r, h1, hr, rfl⟩, ⟨hb, r, h2, hr, rfl⟩, by ring⟩
+    · rintro ⟨_, _, ⟨ha, r, h1, hr, rfl⟩, ⟨hb, r', h2, hr', rfl⟩, rfl⟩
+      rw [hr] at hr'; cases hr'
+      exact ⟨ha + hb, r, ⟨ha, hb, h1, h2, rfl⟩, hr, by ring⟩
+  · simp only [C07_G, h.hort T _, h.sor T flag _]
+    constructor
+    · rintro ⟨_, _, r, ⟨ha, hb, h1, h2, rfl⟩, ⟨sa, sb, s1, s2, rfl⟩, hr, rfl⟩
+      exact ⟨(ha - sa) * T * r, (hb - sb) * T * r, ⟨ha, sa, r, h1, s1, hr, rfl⟩, ⟨hb, sb, r, h2, s2, hr, rfl⟩, by ring⟩
+    · rintro ⟨_, _, ⟨ha, sa, r, h1, s1, hr, rfl⟩, ⟨hb, sb, r', h2, s2, hr', rfl⟩, rfl⟩
+      rw [hr] at hr'; cases hr'
+      exact ⟨ha + hb, sa + sb, r, ⟨ha, hb, h1, h2, rfl⟩, ⟨sa, sb, s1, s2, rfl⟩, hr, by ring⟩
+  · simp only [C07_S, h.sor T flag _]
+    constructor
+    · rintro ⟨_, r, ⟨sa, sb, s1, s2, rfl⟩, hr, rfl⟩
+      exact ⟨sa * r, sb * r, ⟨sa, r, s1, hr, rfl⟩, ⟨sb, r, s2, hr, rfl⟩, by ring⟩
+    · rintro ⟨_, _, ⟨sa, r, s1, hr, rfl⟩, ⟨sb, r', s2, hr', rfl⟩, rfl⟩
+      rw [hr] at hr'; cases hr'
+      exact ⟨sa + sb, r, ⟨sa, sb, s1, s2, rfl⟩, hr, by ring⟩
+  · simp only [C07_Cp, h.cp T _]
+    constructor
+    · rintro ⟨_, r, ⟨ca, cb, c1, c2, rfl⟩, hr, rfl⟩
+      exact ⟨ca * r, cb * r, ⟨ca, r, c1, hr, rfl⟩, ⟨cb, r, c2, hr, rfl⟩, by ring⟩
+    · rintro ⟨_, _, ⟨ca, r, c1, hr, rfl⟩, ⟨cb, r', c2, hr', rfl⟩, rfl⟩
+      rw [hr] at hr'; cases hr'
+      exact ⟨ca + cb, r, ⟨ca, cb, c1, c2, rfl⟩, hr, by ring⟩
+
+/-- **∘ C07: mixture additivity in units.**  Under the hypotheses of `PIPE_mixture_additive`, for every gas-constant table,
+temperature, unit string and `S_elements` flag: `G/RT`, `H`, `G`, `S`, `Cp` of `lib.Estimate(lib.GetDescriptors(A ⊔ B), set)`
+are the sums of those for `A` and `B` (a value exactly when both components give one; an unknown unit string is `KeyError` for
+all three). -/
+theorem PIPE_dimensional (R : RTable) (sel : Nat → Option Rat) (reg : List String) (S : SchemeDef) (lib : Lib) (set : String)
+    (A B : Mol) (H : UnionHyps S A B) (hsep : SeparatedMol S A B) (eU eA eB : Estimator)
+    (hU : pipeline reg S lib (A.union B) set = .ok eU) (hA : pipeline reg S lib A set = .ok eA)
+    (hB : pipeline reg S lib B set = .ok eB) (T : Rat) (u : UnitStr) (flag : PyFlag) :
+    SumVal ((eU.toND sel).GoRT T flag) ((eA.toND sel).GoRT T flag) ((eB.toND sel).GoRT T flag) ∧
+    SumVal ((eU.toND sel).H R T u) ((eA.toND sel).H R T u) ((eB.toND sel).H R T u) ∧
+    SumVal ((eU.toND sel).G R T u flag) ((eA.toND sel).G R T u flag) ((eB.toND sel).G R T u flag) ∧
+    SumVal ((eU.toND sel).Sdim R T u flag) ((eA.toND sel).Sdim R T u flag) ((eB.toND sel).Sdim R T u flag) ∧
+    SumVal ((eU.toND sel).Cp R T u) ((eA.toND sel).Cp R T u) ((eB.toND sel).Cp R T u) :=
+  PIPE_dimensional_sum R _ _ _ (PIPE_mixture_additive sel reg S lib set A B H hsep eU eA eB hU hA hB).1 T u flag
+
+/-- **∘ C07: renumbering invariance in units.**  Under the hypotheses of `PIPE_relabel_invariant`, when the pipeline returns an
+estimate for `m` it returns one for `m'` with the same `G/RT`, `H`, `G`, `S`, `Cp` in every unit at every temperature. -/
+theorem PIPE_dimensional_relabel (R : RTable) (sel : Nat → Option Rat) (reg : List String) (S : SchemeDef) (lib : Lib) (set : String)
+    {π : Nat → Nat} {m m' : Mol} (iso : MolIso π m m')
+    (hm : m.wf = true) (hq : S.wf = true) (hs : S.noStar = true)
+    (hcap : maxRaw S (aromatizeBenson m) < maxMatches) (hcap' : maxRaw S (aromatizeBenson m') < maxMatches)
+    (hcf : ChainFree S.remaps) (e : Estimator) (he : pipeline reg S lib m set = .ok e) :
+    ∃ e', pipeline reg S lib m' set = .ok e' ∧ ∀ T u flag,
+      SameVal ((e.toND sel).GoRT T flag) ((e'.toND sel).GoRT T flag) ∧ SameVal ((e.toND sel).H R T u) ((e'.toND sel).H R T u) ∧
+      SameVal ((e.toND sel).G R T u flag) ((e'.toND sel).G R T u flag) ∧
+      SameVal ((e.toND sel).Sdim R T u flag) ((e'.toND sel).Sdim R T u flag) ∧
+      SameVal ((e.toND sel).Cp R T u) ((e'.toND sel).Cp R T u) := by
+  obtain ⟨e', he', _, hnd⟩ := (PIPE_relabel_invariant sel reg S lib set iso hm hq hs hcap hcap' hcf).estimate e he
+  exact ⟨e', he', fun T u flag => PIPE_dimensional_same R _ _ hnd T u flag⟩
+
+/-! #### non-vacuity: the pair of C–H fragments in J/mol with a one-entry gas-constant table -/
+namespace ExMix
+open PGA.C04
+def Rtab : RTable := [(['J', '/', 'm', 'o', 'l', '/', 'K'], 8)]
+def HOf (r : Except Err Estimator) (T : Rat) : Option Rat :=
+  match r with
+  | .ok e => (match (e.toND (fun _ => none)).H Rtab T ['J', '/', 'm', 'o', 'l'] with | .ok v => some v | .error _ => none)
+  | .error _ => none
+/-- `H(300 K) = (9/4)·300·8 = 5400` for the fragment and `10800` for the pair -/
+example : HOf (pipeline ["thermochem"] exScheme lib exMol "thermochem") 300 = some 5400 ∧
+    HOf (pipeline ["thermochem"] exScheme lib (exMol.union exMol) "thermochem") 300 = some 10800 := by decide +kernel
+end ExMix
 
 end PGA.Pipeline
